@@ -1,8 +1,701 @@
 (* C08 — proofs about models/Notices.v *)
-From Coq Require Import List NArith ZArith Bool Lia.
+From Coq Require Import List NArith ZArith Bool Lia Sorting.Sorted Sorting.Permutation.
 Import ListNotations.
 Require Import V.lib.Bytes V.models.Notices.
 Open Scope Z_scope.
 
+(* ------------------------------------------------------------------------------------------ equality helpers *)
+
+Lemma beq_eq : forall a b, beq a b = true <-> a = b.
+Proof.
+  induction a as [|x a IH]; destruct b as [|y b]; cbn; split; intro H; try reflexivity; try discriminate.
+  - apply andb_true_iff in H. destruct H as [H1 H2]. apply N.eqb_eq in H1. apply IH in H2. subst. reflexivity.
+  - inversion H; subst. apply andb_true_iff. split; [apply N.eqb_refl | apply IH; reflexivity].
+Qed.
+
+Lemma opt_n_eqb_eq : forall a b, opt_n_eqb a b = true <-> a = b.
+Proof.
+  destruct a as [x|], b as [y|]; cbn; split; intro H; try reflexivity; try discriminate.
+  - apply N.eqb_eq in H. subst. reflexivity.
+  - inversion H. apply N.eqb_refl.
+Qed.
+
+Lemma same_key_iff : forall u t k n, same_key u t k n = true <-> key_of n = (u, t, k).
+Proof.
+  intros u t k n. unfold same_key, key_of. rewrite !andb_true_iff, opt_n_eqb_eq, !beq_eq.
+  split.
+  - intros [[H1 H2] H3]. subst. reflexivity.
+  - intro H. inversion H. auto.
+Qed.
+
+Lemma same_key_false : forall u t k n, same_key u t k n = false <-> key_of n <> (u, t, k).
+Proof.
+  intros. split.
+  - intros H E. apply same_key_iff in E. congruence.
+  - intro H. destruct (same_key u t k n) eqn:E; [|reflexivity]. apply same_key_iff in E. contradiction.
+Qed.
+
+Lemma static_match_key : forall f n, static_match f n = key_static_match f (key_of n).
+Proof. reflexivity. Qed.
+
+Lemma static_match_with_after : forall f c n, static_match (with_after f c) n = static_match f n.
+Proof. reflexivity. Qed.
+
+(* ------------------------------------------------------------------------------------------ the bump *)
+
 Lemma bump_gt : forall c l, l < bump c (Some l).
 Proof. intros c l. unfold bump. destruct (c >? l) eqn:E; lia. Qed.
+
+(* ------------------------------------------------------------------------------------------ lists of notices *)
+
+Lemma find_some_key : forall u t k l n,
+  find (same_key u t k) l = Some n -> In n l /\ key_of n = (u, t, k).
+Proof. intros u t k l n H. apply find_some in H. destruct H as [H1 H2]. apply same_key_iff in H2. auto. Qed.
+
+Lemma find_none_key : forall u t k l,
+  find (same_key u t k) l = None -> forall m, In m l -> key_of m <> (u, t, k).
+Proof. intros u t k l H m Hm. apply same_key_false. eapply find_none; eauto. Qed.
+
+Lemma replace_key_keys : forall u t k n' l,
+  key_of n' = (u, t, k) -> map key_of (replace_key u t k n' l) = map key_of l.
+Proof.
+  intros u t k n' l Hk. induction l as [|m l IH]; cbn; [reflexivity|].
+  destruct (same_key u t k m) eqn:E; cbn.
+  - apply same_key_iff in E. rewrite Hk, E. reflexivity.
+  - rewrite IH. reflexivity.
+Qed.
+
+Lemma replace_key_in : forall u t k n' l m,
+  NoDup (map key_of l) -> In m (replace_key u t k n' l) ->
+  m = n' \/ (In m l /\ key_of m <> (u, t, k)).
+Proof.
+  intros u t k n' l m. induction l as [|x l IH]; cbn; intros ND H; [contradiction|].
+  inversion ND as [|? ? Hx ND']; subst.
+  destruct (same_key u t k x) eqn:E.
+  - destruct H as [H|H]; [left; auto|]. right. split; [right; exact H|].
+    apply same_key_iff in E. intro Hm. apply Hx. rewrite E, <- Hm. apply in_map. exact H.
+  - destruct H as [H|H].
+    + subst. right. split; [left; reflexivity | apply same_key_false; exact E].
+    + destruct (IH ND' H) as [H'|[H1 H2]]; [left; exact H' | right; split; [right; exact H1 | exact H2]].
+Qed.
+
+Lemma replace_key_keep : forall u t k n' l m,
+  In m l -> key_of m <> (u, t, k) -> In m (replace_key u t k n' l).
+Proof.
+  intros u t k n' l m. induction l as [|x l IH]; cbn; intros H Hk; [contradiction|].
+  destruct (same_key u t k x) eqn:E.
+  - destruct H as [H|H]; [subst; apply same_key_iff in E; contradiction | right; exact H].
+  - destruct H as [H|H]; [left; exact H | right; apply IH; assumption].
+Qed.
+
+Lemma replace_key_has : forall u t k n' l n,
+  find (same_key u t k) l = Some n -> In n' (replace_key u t k n' l).
+Proof.
+  intros u t k n' l n. induction l as [|x l IH]; cbn; intro H; [discriminate|].
+  destruct (same_key u t k x) eqn:E; [left; reflexivity | right; apply IH; exact H].
+Qed.
+
+Lemma find_replace_key : forall u t k n' l n,
+  find (same_key u t k) l = Some n -> key_of n' = (u, t, k) ->
+  find (same_key u t k) (replace_key u t k n' l) = Some n'.
+Proof.
+  intros u t k n' l n. induction l as [|x l IH]; cbn; intros H Hk; [discriminate|].
+  destruct (same_key u t k x) eqn:E; cbn.
+  - apply same_key_iff in Hk. rewrite Hk. reflexivity.
+  - rewrite E. apply IH; assumption.
+Qed.
+
+Lemma NoDup_app_one : forall {A} (l : list A) x, NoDup l -> ~ In x l -> NoDup (l ++ [x]).
+Proof.
+  intros A l x ND Hx. induction l as [|y l IH]; cbn.
+  - constructor; [intros [] | constructor].
+  - inversion ND; subst. constructor.
+    + intro H. apply in_app_iff in H. destruct H as [H|[H|[]]]; [contradiction|]. subst. apply Hx. left. reflexivity.
+    + apply IH; [assumption|]. intro H. apply Hx. right. exact H.
+Qed.
+
+Lemma find_app_new : forall u t k l n',
+  find (same_key u t k) l = None -> key_of n' = (u, t, k) ->
+  find (same_key u t k) (l ++ [n']) = Some n'.
+Proof.
+  intros u t k l n'. induction l as [|x l IH]; cbn; intros H Hk.
+  - apply same_key_iff in Hk. rewrite Hk. reflexivity.
+  - destruct (same_key u t k x) eqn:E; [discriminate | apply IH; assumption].
+Qed.
+
+(* ------------------------------------------------------------------------------------------ AddNotice, server clock *)
+
+Definition keys_unique (st : state) : Prop := NoDup (map key_of (s_notices st)).
+
+(* every last-repeated time is at most lastNoticeTimestamp *)
+Definition bounded (st : state) : Prop :=
+  forall n, In n (s_notices st) -> exists L, s_last_ts st = Some L /\ n_lr n <= L.
+
+Definition good (st : state) : Prop := keys_unique st /\ bounded st.
+
+Lemma good_empty : good empty_state.
+Proof. split; [constructor | intros n H; inversion H]. Qed.
+
+(* what one server-clock AddNotice does, membership-wise *)
+Lemma add_server_spec : forall st a st' flag id,
+  good st -> a_time a = None -> add_notice st a = Some (st', flag, id) ->
+  let T := bump (a_clock a) (s_last_ts st) in
+  s_last_ts st' = Some T /\
+  (forall L, s_last_ts st = Some L -> L < T) /\
+  good st' /\
+  (* the notice of this key after the call *)
+  (exists n', find (same_key (a_user a) (a_type a) (a_key a)) (s_notices st') = Some n' /\
+              In n' (s_notices st') /\ key_of n' = akey a /\
+              (flag = true -> n_lr n' = T) /\
+              (flag = false -> exists n0, In n0 (s_notices st) /\ key_of n0 = akey a /\ n_lr n' = n_lr n0)) /\
+  (* every other notice is untouched *)
+  (forall m, In m (s_notices st') -> key_of m <> akey a -> In m (s_notices st)) /\
+  (forall m, In m (s_notices st) -> key_of m <> akey a -> In m (s_notices st')) /\
+  (forall m, In m (s_notices st') -> key_of m = akey a ->
+             exists n', find (same_key (a_user a) (a_type a) (a_key a)) (s_notices st') = Some n' /\ m = n').
+Proof.
+  intros st a st' flag id [KU BD] Ht H T.
+  unfold add_notice in H. rewrite Ht in H.
+  destruct (negb (validate a)); [discriminate|].
+  fold T in H.
+  assert (HT : forall L, s_last_ts st = Some L -> L < T).
+  { intros L HL. unfold T. rewrite HL. apply bump_gt. }
+  destruct (find (same_key (a_user a) (a_type a) (a_key a)) (s_notices st)) as [n|] eqn:F.
+  - (* existing notice *)
+    inversion H; subst st' flag id; clear H. cbn [s_last_ts s_notices].
+    set (rep := (a_ra a =? 0) || (T >? n_lr n + a_ra a)).
+    set (n' := mkN (n_id n) (n_user n) (n_type n) (n_key n) (n_first n) T (if rep then T else n_lr n)
+                   (n_occ n + 1)%N (a_ra a)).
+    destruct (find_some_key _ _ _ _ _ F) as [Hin Hkey].
+    assert (Hk' : key_of n' = akey a) by (unfold akey; rewrite <- Hkey; reflexivity).
+    assert (Hlr : n_lr n' <= T).
+    { cbn. destruct rep; [lia|]. destruct (BD n Hin) as [L [HL Hle]]. specialize (HT L HL). lia. }
+    split; [reflexivity|]. split; [exact HT|].
+    split.
+    { split.
+      - unfold keys_unique. cbn [s_notices]. rewrite replace_key_keys by exact Hk'. exact KU.
+      - intros m Hm. cbn [s_notices s_last_ts] in *. exists T. split; [reflexivity|].
+        destruct (replace_key_in _ _ _ _ _ _ KU Hm) as [->|[Hm1 _]]; [exact Hlr|].
+        destruct (BD m Hm1) as [L [HL Hle]]. specialize (HT L HL). lia. }
+    split.
+    { exists n'. split; [apply find_replace_key with (n := n); assumption|].
+      split; [eapply replace_key_has; exact F|]. split; [exact Hk'|].
+      split.
+      - intro Hr. cbn. fold rep. rewrite Hr. reflexivity.
+      - intro Hr. exists n. split; [exact Hin|]. split; [exact Hkey|]. cbn. fold rep. rewrite Hr. reflexivity. }
+    split.
+    { intros m Hm Hk. destruct (replace_key_in _ _ _ _ _ _ KU Hm) as [->|[Hm1 _]]; [contradiction | exact Hm1]. }
+    split.
+    { intros m Hm Hk. apply replace_key_keep; assumption. }
+    { intros m Hm Hk. exists n'. split; [apply find_replace_key with (n := n); assumption|].
+      destruct (replace_key_in _ _ _ _ _ _ KU Hm) as [->|[_ Hne]]; [reflexivity | contradiction]. }
+  - (* first occurrence *)
+    inversion H; subst st' flag id; clear H. cbn [s_last_ts s_notices].
+    set (n' := mkN (s_last_id st + 1)%N (a_user a) (a_type a) (a_key a) T T T 1%N (a_ra a)).
+    assert (Hk' : key_of n' = akey a) by reflexivity.
+    pose proof (find_none_key _ _ _ _ F) as Hnone.
+    split; [reflexivity|]. split; [exact HT|].
+    split.
+    { split.
+      - unfold keys_unique. cbn [s_notices]. rewrite map_app. cbn.
+        apply NoDup_app_one; [exact KU|]. intro Hin. apply in_map_iff in Hin. destruct Hin as [m [Hm1 Hm2]].
+        apply (Hnone m Hm2). exact Hm1.
+      - intros m Hm. cbn [s_notices s_last_ts] in *. exists T. split; [reflexivity|].
+        apply in_app_iff in Hm. destruct Hm as [Hm|[<-|[]]]; [|cbn; lia].
+        destruct (BD m Hm) as [L [HL Hle]]. specialize (HT L HL). lia. }
+    split.
+    { exists n'. split; [apply find_app_new; assumption|]. split; [apply in_app_iff; right; left; reflexivity|].
+      split; [exact Hk'|]. split; [reflexivity | discriminate]. }
+    split.
+    { intros m Hm Hk. apply in_app_iff in Hm. destruct Hm as [Hm|[<-|[]]]; [exact Hm | contradiction]. }
+    split.
+    { intros m Hm Hk. apply in_app_iff. left. exact Hm. }
+    { intros m Hm Hk. exists n'. split; [apply find_app_new; assumption|].
+      apply in_app_iff in Hm. destruct Hm as [Hm|[<-|[]]]; [|reflexivity].
+      exfalso. apply (Hnone m Hm). exact Hk. }
+Qed.
+
+(* ------------------------------------------------------------------------------------------ sorting *)
+
+Lemma ins_perm : forall n l, Permutation (ins n l) (n :: l).
+Proof.
+  intros n l. induction l as [|m l IH]; cbn; [apply Permutation_refl|].
+  destruct (n_lr n <? n_lr m); [apply Permutation_refl|].
+  eapply Permutation_trans; [apply perm_skip; exact IH | apply perm_swap].
+Qed.
+
+Lemma sort_lr_perm : forall l, Permutation (sort_lr l) l.
+Proof.
+  induction l as [|n l IH]; cbn; [constructor|].
+  eapply Permutation_trans; [apply ins_perm | apply perm_skip; exact IH].
+Qed.
+
+Lemma sort_lr_in : forall l n, In n (sort_lr l) <-> In n l.
+Proof.
+  intros l n. split; intro H.
+  - eapply Permutation_in; [apply sort_lr_perm | exact H].
+  - eapply Permutation_in; [apply Permutation_sym; apply sort_lr_perm | exact H].
+Qed.
+
+Definition le_lr (a b : notice) : Prop := n_lr a <= n_lr b.
+Definition lt_lr (a b : notice) : Prop := n_lr a < n_lr b.
+
+Lemma ins_sorted : forall n l, StronglySorted le_lr l -> StronglySorted le_lr (ins n l).
+Proof.
+  intros n l. induction l as [|m l IH]; cbn; intro S.
+  - constructor; constructor.
+  - inversion S as [|? ? S' F]; subst.
+    destruct (n_lr n <? n_lr m) eqn:E.
+    + constructor; [exact S|]. apply Z.ltb_lt in E. constructor; [unfold le_lr; lia|].
+      eapply Forall_impl; [|exact F]. intros x Hx. unfold le_lr in *. lia.
+    + apply Z.ltb_ge in E. constructor; [apply IH; exact S'|].
+      rewrite Forall_forall. intros x Hx.
+      eapply Permutation_in in Hx; [|apply ins_perm]. destruct Hx as [<-|Hx]; [exact E|].
+      rewrite Forall_forall in F. apply F. exact Hx.
+Qed.
+
+Lemma sort_lr_sorted : forall l, StronglySorted le_lr (sort_lr l).
+Proof. induction l as [|n l IH]; cbn; [constructor | apply ins_sorted; exact IH]. Qed.
+
+Lemma sorted_strict : forall l, StronglySorted le_lr l -> NoDup (map n_lr l) -> StronglySorted lt_lr l.
+Proof.
+  induction l as [|n l IH]; intros S ND; [constructor|].
+  inversion S as [|? ? S' F]; subst. cbn in ND. inversion ND as [|? ? Hn ND']; subst.
+  constructor; [apply IH; assumption|].
+  rewrite Forall_forall in *. intros x Hx. specialize (F x Hx). unfold le_lr, lt_lr in *.
+  assert (n_lr n <> n_lr x) by (intro E; apply Hn; rewrite E; apply in_map; exact Hx). lia.
+Qed.
+
+Lemma NoDup_map_filter : forall {A B} (g : A -> B) p (l : list A), NoDup (map g l) -> NoDup (map g (List.filter p l)).
+Proof.
+  intros A B g p l. induction l as [|x l IH]; cbn; intro ND; [constructor|].
+  inversion ND as [|? ? Hx ND']; subst.
+  destruct (p x); cbn; [constructor|]; auto.
+  intro H. apply Hx. apply in_map_iff in H. destruct H as [y [Hy1 Hy2]]. apply filter_In in Hy2.
+  rewrite <- Hy1. apply in_map. tauto.
+Qed.
+
+(* ------------------------------------------------------------------------------------------ the cursor *)
+
+Lemma max_lr_spec : forall r c,
+  match max_lr c r with
+  | None => c = None /\ r = []
+  | Some m => (forall n, In n r -> n_lr n <= m) /\ (forall cv, c = Some cv -> cv <= m) /\
+              (c = Some m \/ exists n, In n r /\ n_lr n = m)
+  end.
+Proof.
+  unfold max_lr. induction r as [|x r IH]; intro c; cbn.
+  - destruct c as [cv|]; [|split; reflexivity].
+    split; [intros n []|]. split; [intros ? E; inversion E; lia | left; reflexivity].
+  - specialize (IH (match c with None => Some (n_lr x) | Some a => Some (Z.max a (n_lr x)) end)).
+    destruct (fold_left _ r _) as [m|].
+    + destruct IH as [I1 [I2 I3]]. split; [|split].
+      * intros n [<-|Hn]; [|apply I1; exact Hn].
+        destruct c as [cv|]; [specialize (I2 _ eq_refl) | specialize (I2 _ eq_refl)]; lia.
+      * intros cv ->. specialize (I2 _ eq_refl). lia.
+      * destruct I3 as [I3|[n [Hn1 Hn2]]]; [|right; exists n; split; [right; exact Hn1 | exact Hn2]].
+        destruct c as [cv|]; inversion I3 as [E].
+        -- destruct (Z.max_spec cv (n_lr x)) as [[_ ->]|[_ ->]]; [right; exists x; split; [left|]; reflexivity | left; reflexivity].
+        -- right. exists x. split; [left|]; reflexivity.
+    + destruct IH as [I1 _]. destruct c; discriminate.
+Qed.
+
+(* ------------------------------------------------------------------------------------------ the invariant of one polling client *)
+
+Definition inv (f : nfilter) (st : state) (c : option Z) (pend : list nkey) : Prop :=
+  good st /\
+  (forall cv, c = Some cv -> exists L, s_last_ts st = Some L /\ cv <= L) /\
+  (forall n, In n (s_notices st) -> static_match f n = true -> (after_ok c n = true <-> In (key_of n) pend)) /\
+  (forall k, In k pend -> exists n, In n (s_notices st) /\ key_of n = k).
+
+Lemma inv_init : forall f, inv f empty_state None [].
+Proof.
+  intro f. split; [apply good_empty|]. split; [intros cv E; discriminate|].
+  split; [intros n []|intros k []].
+Qed.
+
+Lemma inv_add : forall f st c pend a st' flag id,
+  inv f st c pend -> a_time a = None -> add_notice st a = Some (st', flag, id) ->
+  inv f st' c (if flag then akey a :: pend else pend).
+Proof.
+  intros f st c pend a st' flag id [G [IC [ID IE]]] Ht H.
+  destruct (add_server_spec _ _ _ _ _ G Ht H) as [HL [HT [G' [[n' [_ [Hn'in [Hn'k [Hft Hff]]]]] [Hother [Hkeep Hsame]]]]]].
+  split; [exact G'|]. split; [|split].
+  - intros cv E. destruct (IC cv E) as [L [HL0 Hle]]. eexists. split; [exact HL|]. specialize (HT L HL0). lia.
+  - intros m Hm Hs.
+    assert (Dec : key_of m = akey a \/ key_of m <> akey a).
+    { destruct (same_key (a_user a) (a_type a) (a_key a) m) eqn:E;
+        [left; apply same_key_iff; exact E | right; apply same_key_false; exact E]. }
+    destruct Dec as [Hk|Hk].
+    + destruct (Hsame m Hm Hk) as [n'' [_ ->]]. clear Hsame.
+      destruct flag.
+      * (* new or repeated: stamped after everything, hence after the cursor; and now pending *)
+        split; [intros _; left; symmetry; exact Hk|]. intros _.
+        destruct c as [cv|]; [|reflexivity]. cbn.
+        destruct (IC cv eq_refl) as [L [HL0 Hle]]. specialize (HT L HL0).
+        (* n'' is the notice of this key: its last-repeated is T *)
+        destruct (add_server_spec _ _ _ _ _ G Ht H) as [_ [_ [_ [[n1 [Hf1 [_ [_ [Hlr1 _]]]]] [_ [_ Hsame1]]]]]].
+        destruct (Hsame1 n'' Hm Hk) as [n2 [Hf2 ->]]. rewrite Hf1 in Hf2. inversion Hf2; subst n2.
+        rewrite (Hlr1 eq_refl). apply Z.gtb_lt. lia.
+      * (* suppressed repeat: last-repeated unchanged, pending unchanged *)
+        destruct (add_server_spec _ _ _ _ _ G Ht H) as [_ [_ [_ [[n1 [Hf1 [_ [_ [_ Hlr1]]]]] [_ [_ Hsame1]]]]]].
+        destruct (Hsame1 n'' Hm Hk) as [n2 [Hf2 ->]]. rewrite Hf1 in Hf2. inversion Hf2; subst n2.
+        destruct (Hlr1 eq_refl) as [n0 [Hn0 [Hk0 Hlr0]]].
+        assert (Hs0 : static_match f n0 = true) by (rewrite static_match_key, Hk0, <- Hk, <- static_match_key; exact Hs).
+        specialize (ID n0 Hn0 Hs0). rewrite Hk0 in ID. rewrite Hk.
+        assert (Ha : after_ok c n1 = after_ok c n0) by (unfold after_ok; rewrite Hlr0; reflexivity).
+        rewrite Ha. exact ID.
+    + specialize (ID m (Hother m Hm Hk) Hs).
+      destruct flag; [|exact ID].
+      rewrite ID. split; [intro Hp; right; exact Hp|]. intros [Hp|Hp]; [symmetry in Hp; contradiction | exact Hp].
+  - intros k Hk.
+    assert (Hk' : k = akey a \/ In k pend) by (destruct flag; [destruct Hk; auto | auto]).
+    destruct Hk' as [->|Hp]; [exists n'; split; assumption|].
+    destruct (IE k Hp) as [n [Hn1 Hn2]].
+    assert (Dec : key_of n = akey a \/ key_of n <> akey a).
+    { destruct (same_key (a_user a) (a_type a) (a_key a) n) eqn:E;
+        [left; apply same_key_iff; exact E | right; apply same_key_false; exact E]. }
+    destruct Dec as [Hka|Hka].
+    + exists n'. split; [exact Hn'in | rewrite Hn'k, <- Hka; exact Hn2].
+    + exists n. split; [apply Hkeep; assumption | exact Hn2].
+Qed.
+
+(* last-repeated times are pairwise distinct in a good state reached by server-clock additions *)
+Definition lr_distinct (st : state) : Prop := NoDup (map n_lr (s_notices st)).
+
+Lemma poll_members : forall st f c n,
+  In n (fst (poll st f c)) <-> In n (s_notices st) /\ static_match f n = true /\ after_ok c n = true.
+Proof.
+  intros st f c n. unfold poll, notices. cbn [fst]. rewrite sort_lr_in, filter_In.
+  unfold matches. rewrite static_match_with_after. cbn [f_after with_after]. rewrite andb_true_iff. tauto.
+Qed.
+
+Lemma inv_poll : forall f st c pend out c',
+  inv f st c pend -> poll st f c = (out, c') ->
+  (forall n, In n out -> In n (s_notices st) /\ static_match f n = true /\ In (key_of n) pend) /\
+  (forall k, In k pend -> key_static_match f k = true -> exists n, In n out /\ key_of n = k) /\
+  NoDup (map key_of out) /\
+  StronglySorted le_lr out /\
+  inv f st c' [].
+Proof.
+  intros f st c pend out c' [G [IC [ID IE]]] HP.
+  assert (Hout : out = fst (poll st f c)) by (rewrite HP; reflexivity).
+  assert (Hc' : c' = max_lr c out) by (unfold poll in HP; inversion HP; reflexivity).
+  assert (Hmem : forall n, In n out <-> In n (s_notices st) /\ static_match f n = true /\ after_ok c n = true)
+    by (intro n; rewrite Hout; apply poll_members).
+  split; [|split; [|split; [|split]]].
+  - intros n Hn. apply Hmem in Hn. destruct Hn as [H1 [H2 H3]]. split; [exact H1|]. split; [exact H2|].
+    apply (ID n H1 H2). exact H3.
+  - intros k Hk Hs. destruct (IE k Hk) as [n [Hn1 Hn2]]. exists n. split; [|exact Hn2].
+    apply Hmem. assert (Hs' : static_match f n = true) by (rewrite static_match_key, Hn2; exact Hs).
+    split; [exact Hn1|]. split; [exact Hs'|]. apply (ID n Hn1 Hs'). rewrite Hn2. exact Hk.
+  - rewrite Hout. unfold poll, notices. cbn [fst].
+    eapply Permutation_NoDup; [apply Permutation_map; apply Permutation_sym; apply sort_lr_perm|].
+    apply NoDup_map_filter. apply G.
+  - rewrite Hout. unfold poll, notices. cbn [fst]. apply sort_lr_sorted.
+  - pose proof (max_lr_spec out c) as MS. rewrite <- Hc' in MS.
+    split; [exact G|]. split; [|split; [|intros k []]].
+    + intros cv E. subst c'. rewrite E in MS. destruct MS as [_ [_ [M3|[n [Hn1 Hn2]]]]].
+      * apply IC. exact M3.
+      * apply Hmem in Hn1. destruct Hn1 as [Hn1 _]. destruct G as [_ BD]. destruct (BD n Hn1) as [L [HL Hle]].
+        exists L. split; [exact HL | lia].
+    + intros n Hn Hs. split; [|intros []]. intro Ha. exfalso.
+      destruct c' as [m|].
+      * destruct MS as [M1 [M2 _]]. cbn in Ha. apply Z.gtb_lt in Ha.
+        destruct (after_ok c n) eqn:Hac.
+        -- assert (In n out) by (apply Hmem; auto). specialize (M1 n H). lia.
+        -- destruct c as [cv|]; [|discriminate]. cbn in Hac. specialize (M2 cv eq_refl).
+           rewrite Z.gtb_ltb in Hac. apply Z.ltb_ge in Hac. lia.
+      * destruct MS as [-> ->]. assert (In n []) by (apply Hmem; auto). contradiction.
+Qed.
+
+(* ------------------------------------------------------------------------------------------ C08_exactly_once *)
+
+Definition poll_ok (f : nfilter) (out : list notice) (pend : list nkey) : Prop :=
+  (forall n, In n out -> static_match f n = true /\ In (key_of n) pend) /\
+  (forall k, In k pend -> key_static_match f k = true -> exists n, In n out /\ key_of n = k) /\
+  NoDup (map key_of out) /\
+  StronglySorted le_lr out.
+
+Lemma hrun_ok : forall f evs st c pend,
+  inv f st c pend -> forallb ev_server_clock evs = true ->
+  Forall (fun r => poll_ok f (fst r) (snd r)) (hrun f st c pend evs).
+Proof.
+  intros f. induction evs as [|e evs IH]; intros st c pend I SC; cbn [hrun]; [constructor|].
+  cbn in SC. apply andb_true_iff in SC. destruct SC as [SC1 SC2].
+  destruct e as [a|].
+  - cbn in SC1. destruct (a_time a) eqn:Ht; [discriminate|].
+    destruct (add_notice st a) as [[[st' flag] id]|] eqn:HA.
+    + apply IH; [|exact SC2]. eapply inv_add; eassumption.
+    + apply IH; assumption.
+  - destruct (poll st f c) as [out c'] eqn:HP.
+    destruct (inv_poll _ _ _ _ _ _ I HP) as [P1 [P2 [P3 [P4 I']]]].
+    constructor; [|apply IH; assumption].
+    cbn. split; [|split; [exact P2 | split; [exact P3 | exact P4]]].
+    intros n Hn. destruct (P1 n Hn) as [_ [Hs Hp]]. split; assumption.
+Qed.
+
+Theorem exactly_once : forall f evs out pend,
+  forallb ev_server_clock evs = true ->
+  In (out, pend) (hrun f empty_state None [] evs) ->
+  poll_ok f out pend.
+Proof.
+  intros f evs out pend SC H.
+  pose proof (hrun_ok f evs empty_state None [] (inv_init f) SC) as F.
+  rewrite Forall_forall in F. apply (F _ H).
+Qed.
+
+(* strict order inside one answer: last-repeated times are pairwise distinct along server-clock histories *)
+Lemma add_lr_distinct : forall st a st' flag id,
+  good st -> lr_distinct st -> a_time a = None -> add_notice st a = Some (st', flag, id) -> lr_distinct st'.
+Proof.
+  intros st a st' flag id G LD Ht H.
+  pose proof G as [KU BD].
+  unfold add_notice in H. rewrite Ht in H. destruct (negb (validate a)); [discriminate|].
+  set (T := bump (a_clock a) (s_last_ts st)) in *.
+  assert (HT : forall L, s_last_ts st = Some L -> L < T) by (intros L HL; unfold T; rewrite HL; apply bump_gt).
+  assert (Hfresh : ~ In T (map n_lr (s_notices st))).
+  { intro Hin. apply in_map_iff in Hin. destruct Hin as [m [Hm1 Hm2]]. destruct (BD m Hm2) as [L [HL Hle]].
+    specialize (HT L HL). lia. }
+  destruct (find (same_key (a_user a) (a_type a) (a_key a)) (s_notices st)) as [n|] eqn:F.
+  - inversion H; subst st' flag id; clear H. unfold lr_distinct in *. cbn [s_notices].
+    set (rep := (a_ra a =? 0) || (T >? n_lr n + a_ra a)).
+    set (n' := mkN _ _ _ _ _ _ _ _ _).
+    clear KU BD G. revert LD Hfresh F. generalize (s_notices st) as l.
+    induction l as [|x l IH]; cbn; intros LD Hfresh F; [constructor|].
+    inversion LD as [|? ? Hx LD']; subst.
+    destruct (same_key (a_user a) (a_type a) (a_key a) x) eqn:E.
+    + inversion F; subst x. cbn. constructor; [|exact LD'].
+      unfold n'. cbn. destruct rep; [intro Hin; apply Hfresh; right; exact Hin | exact Hx].
+    + cbn. constructor.
+      * intro Hin. apply in_map_iff in Hin. destruct Hin as [m [Hm1 Hm2]].
+        assert (Hcase : m = n' \/ In m l).
+        { clear - Hm2. induction l as [|y l IHl]; cbn in Hm2; [contradiction|].
+          destruct (same_key (a_user a) (a_type a) (a_key a) y); destruct Hm2 as [Hm2|Hm2]; auto.
+          - right; right; exact Hm2.
+          - right; left; exact Hm2.
+          - destruct (IHl Hm2); auto. right; right; assumption. }
+        destruct Hcase as [->|Hml].
+        -- unfold n' in Hm1. cbn in Hm1. destruct rep.
+           ++ apply Hfresh. left. symmetry. exact Hm1.
+           ++ apply Hx. rewrite <- Hm1. apply find_some in F. apply in_map. tauto.
+        -- apply Hx. rewrite <- Hm1. apply in_map. exact Hml.
+      * apply IH; [exact LD' | intro Hin; apply Hfresh; right; exact Hin | exact F].
+  - inversion H; subst st' flag id; clear H. unfold lr_distinct in *. cbn [s_notices].
+    rewrite map_app. cbn. apply NoDup_app_one; assumption.
+Qed.
+
+Definition inv2 (f : nfilter) (st : state) (c : option Z) (pend : list nkey) : Prop :=
+  inv f st c pend /\ lr_distinct st.
+
+Lemma hrun_strict : forall f evs st c pend,
+  inv2 f st c pend -> forallb ev_server_clock evs = true ->
+  Forall (fun r => StronglySorted lt_lr (fst r)) (hrun f st c pend evs).
+Proof.
+  intros f. induction evs as [|e evs IH]; intros st c pend [I LD] SC; cbn [hrun]; [constructor|].
+  cbn in SC. apply andb_true_iff in SC. destruct SC as [SC1 SC2].
+  destruct e as [a|].
+  - cbn in SC1. destruct (a_time a) eqn:Ht; [discriminate|].
+    destruct (add_notice st a) as [[[st' flag] id]|] eqn:HA.
+    + apply IH; [|exact SC2]. split; [eapply inv_add; eassumption|].
+      eapply add_lr_distinct; try eassumption. apply I.
+    + apply IH; [split|]; assumption.
+  - destruct (poll st f c) as [out c'] eqn:HP.
+    destruct (inv_poll _ _ _ _ _ _ I HP) as [_ [_ [_ [P4 I']]]].
+    constructor; [|apply IH; [split|]; assumption].
+    cbn. apply sorted_strict; [exact P4|].
+    assert (Hout : out = fst (poll st f c)) by (rewrite HP; reflexivity).
+    rewrite Hout. unfold poll, notices. cbn [fst].
+    eapply Permutation_NoDup; [apply Permutation_map; apply Permutation_sym; apply sort_lr_perm|].
+    apply NoDup_map_filter. exact LD.
+Qed.
+
+Theorem answers_strictly_ordered : forall f evs out pend,
+  forallb ev_server_clock evs = true ->
+  In (out, pend) (hrun f empty_state None [] evs) ->
+  StronglySorted lt_lr out.
+Proof.
+  intros f evs out pend SC H.
+  assert (I : inv2 f empty_state None []) by (split; [apply inv_init | constructor]).
+  pose proof (hrun_strict f evs _ _ _ I SC) as F. rewrite Forall_forall in F. apply (F _ H).
+Qed.
+
+(* ------------------------------------------------------------------------------------------ C08_timestamps_strict *)
+
+Definition add_server_clock (a : addargs) : bool := match a_time a with None => true | Some _ => false end.
+
+Lemma flag_stamps_strict : forall l st,
+  good st -> forallb add_server_clock l = true ->
+  (forall L z, s_last_ts st = Some L -> In z (flag_stamps st l) -> L < z) /\
+  StronglySorted Z.lt (flag_stamps st l).
+Proof.
+  induction l as [|a l IH]; intros st G SC; cbn [flag_stamps]; [split; [intros ? ? ? []|constructor]|].
+  cbn in SC. apply andb_true_iff in SC. destruct SC as [SC1 SC2].
+  unfold add_server_clock in SC1. destruct (a_time a) eqn:Ht; [discriminate|].
+  destruct (add_notice st a) as [[[st' flag] id]|] eqn:HA; [|apply IH; assumption].
+  destruct (add_server_spec _ _ _ _ _ G Ht HA) as [HL [HT [G' [[n' [Hf [_ [_ [Hft _]]]]] _]]]].
+  rewrite Hf. destruct (IH st' G' SC2) as [I1 I2].
+  destruct flag.
+  - rewrite (Hft eq_refl). split.
+    + intros L z HL0 [<-|Hz]; [apply HT; exact HL0|]. specialize (HT L HL0). specialize (I1 _ z HL Hz). lia.
+    + constructor; [exact I2|]. rewrite Forall_forall. intros z Hz. apply (I1 _ z HL Hz).
+  - split; [|exact I2]. intros L z HL0 Hz. specialize (HT L HL0). specialize (I1 _ z HL Hz). lia.
+Qed.
+
+Theorem timestamps_strict : forall l,
+  forallb add_server_clock l = true -> StronglySorted Z.lt (flag_stamps empty_state l).
+Proof. intros l SC. apply flag_stamps_strict; [apply good_empty | exact SC]. Qed.
+
+(* the state reached by server-clock additions is good: keys unique, every last-repeated <= lastNoticeTimestamp *)
+Lemma reach_good : forall l st, good st -> forallb add_server_clock l = true -> good (add_all st l).
+Proof.
+  induction l as [|a l IH]; intros st G SC; cbn; [exact G|].
+  cbn in SC. apply andb_true_iff in SC. destruct SC as [SC1 SC2].
+  unfold add_server_clock in SC1. destruct (a_time a) eqn:Ht; [discriminate|].
+  destruct (add_notice st a) as [[[st' flag] id]|] eqn:HA; [|apply IH; assumption].
+  apply IH; [|exact SC2]. apply (add_server_spec _ _ _ _ _ G Ht HA).
+Qed.
+
+(* a new-or-repeated addition is stamped strictly after every notice already in the state *)
+Theorem new_stamp_after_all : forall l a st' id,
+  forallb add_server_clock l = true -> a_time a = None ->
+  add_notice (reach l) a = Some (st', true, id) ->
+  exists n', find (same_key (a_user a) (a_type a) (a_key a)) (s_notices st') = Some n' /\
+             forall m, In m (s_notices (reach l)) -> n_lr m < n_lr n'.
+Proof.
+  intros l a st' id SC Ht HA.
+  assert (G : good (reach l)) by (apply reach_good; [apply good_empty | exact SC]).
+  destruct (add_server_spec _ _ _ _ _ G Ht HA) as [_ [HT [_ [[n' [Hf [_ [_ [Hft _]]]]] _]]]].
+  exists n'. split; [exact Hf|]. intros m Hm. rewrite (Hft eq_refl).
+  destruct G as [_ BD]. destruct (BD m Hm) as [L [HL Hle]]. specialize (HT L HL). lia.
+Qed.
+
+(* ------------------------------------------------------------------------------------------ C08_repeat_after *)
+
+Theorem repeat_after_rule : forall st a n st' flag id,
+  a_time a = None -> add_notice st a = Some (st', flag, id) ->
+  find (same_key (a_user a) (a_type a) (a_key a)) (s_notices st) = Some n ->
+  let T := bump (a_clock a) (s_last_ts st) in
+  flag = ((a_ra a =? 0) || (T >? n_lr n + a_ra a)) /\
+  exists n', find (same_key (a_user a) (a_type a) (a_key a)) (s_notices st') = Some n' /\
+             n_lr n' = (if flag then T else n_lr n) /\ n_occ n' = (n_occ n + 1)%N /\ n_id n' = n_id n /\ id = n_id n.
+Proof.
+  intros st a n st' flag id Ht H F T.
+  unfold add_notice in H. rewrite Ht, F in H. destruct (negb (validate a)); [discriminate|].
+  fold T in H. inversion H; subst st' flag id; clear H. split; [reflexivity|].
+  eexists. split; [cbn [s_notices]; eapply find_replace_key; [exact F|]|].
+  - destruct (find_some_key _ _ _ _ _ F) as [_ Hk]. unfold key_of in *. cbn. exact Hk.
+  - cbn. auto.
+Qed.
+
+Theorem repeat_after_suppressed : forall st a n st' flag id,
+  a_time a = None -> add_notice st a = Some (st', flag, id) ->
+  find (same_key (a_user a) (a_type a) (a_key a)) (s_notices st) = Some n ->
+  a_ra a <> 0 -> bump (a_clock a) (s_last_ts st) <= n_lr n + a_ra a ->
+  flag = false /\
+  exists n', find (same_key (a_user a) (a_type a) (a_key a)) (s_notices st') = Some n' /\
+             n_lr n' = n_lr n /\ n_occ n' = (n_occ n + 1)%N.
+Proof.
+  intros st a n st' flag id Ht H F Hra Hle.
+  destruct (repeat_after_rule _ _ _ _ _ _ Ht H F) as [Hf [n' [Hf' [Hlr [Hocc _]]]]].
+  assert (Hff : flag = false).
+  { rewrite Hf. apply orb_false_iff. split; [apply Z.eqb_neq; exact Hra|].
+    rewrite Z.gtb_ltb. apply Z.ltb_ge. exact Hle. }
+  clear Hf. rewrite Hff in Hlr. split; [exact Hff|]. exists n'. auto.
+Qed.
+
+(* ------------------------------------------------------------------------------------------ C08_owner_only *)
+
+Theorem notices_owner_only : forall st f u n,
+  f_user f = Some u -> In n (notices st f) -> n_user n = None \/ n_user n = Some u.
+Proof.
+  intros st f u n Hu Hn. unfold notices in Hn. apply (proj1 (sort_lr_in _ _)) in Hn. apply filter_In in Hn.
+  destruct Hn as [_ Hm]. unfold matches, static_match in Hm. rewrite Hu in Hm.
+  destruct (n_user n) as [v|]; [|left; reflexivity].
+  right. rewrite !andb_true_iff in Hm. destruct Hm as [[[Hm _] _] _]. apply N.eqb_eq in Hm. subst. reflexivity.
+Qed.
+
+Theorem api_filter_nonroot : forall q uid f,
+  q_uid q = Some uid -> uid <> 0%N -> api_filter q = ApiFilter f ->
+  f_user f = Some uid /\ q_user_id q = [] /\ q_users q = [].
+Proof.
+  intros q uid f Hq Hnz H. unfold api_filter in H. rewrite Hq in H.
+  assert (E : (uid =? 0)%N = false) by (apply N.eqb_neq; exact Hnz). rewrite E in H. cbn [negb] in H.
+  rewrite !andb_true_r in H.
+  destruct (q_user_id q) as [|x xs]; [|cbn in H; discriminate]. cbn [is_nil_b negb] in H.
+  destruct (q_users q) as [|y ys]; [|cbn in H; discriminate]. cbn in H.
+  destruct (is_nil_b (dedup_valid [] (multi_comma_list (q_types q))) && negb (is_nil_b (multi_comma_list (q_types q))));
+    [discriminate|].
+  destruct (q_after q) as [[t|]|]; inversion H; subst; cbn; auto.
+Qed.
+
+Theorem api_no_uid_forbidden : forall q, q_uid q = None -> api_filter q = ApiForbidden.
+Proof. intros q H. unfold api_filter. rewrite H. reflexivity. Qed.
+
+Theorem api_owner_only : forall st q uid n,
+  q_uid q = Some uid -> uid <> 0%N -> In n (snd (api_get st q)) -> n_user n = None \/ n_user n = Some uid.
+Proof.
+  intros st q uid n Hq Hnz Hn. unfold api_get in Hn.
+  destruct (api_filter q) as [| | |f] eqn:E; cbn in Hn; try contradiction.
+  destruct (api_filter_nonroot _ _ _ Hq Hnz E) as [Hu _]. eapply notices_owner_only; eassumption.
+Qed.
+
+(* ------------------------------------------------------------------------------------------ C08_waiter_enabled *)
+
+Lemma wait_enabled_iff : forall st f, wait_enabled st f = true <-> exists n, In n (s_notices st) /\ matches f n = true.
+Proof.
+  intros st f. unfold wait_enabled, notices. split.
+  - intro H. destruct (sort_lr (List.filter (matches f) (s_notices st))) as [|n r] eqn:E; [discriminate|].
+    assert (In n (sort_lr (List.filter (matches f) (s_notices st)))) by (rewrite E; left; reflexivity).
+    apply (proj1 (sort_lr_in _ _)) in H0. apply filter_In in H0. exists n. exact H0.
+  - intros [n [H1 H2]].
+    assert (In n (sort_lr (List.filter (matches f) (s_notices st)))) by (apply (proj2 (sort_lr_in _ _)); apply filter_In; auto).
+    destruct (sort_lr _); [contradiction | reflexivity].
+Qed.
+
+(* a new-or-repeated addition whose notice matches the waiter's filter makes WaitNotices' return condition true *)
+Theorem waiter_enabled : forall st a st' id f n',
+  good st -> a_time a = None -> add_notice st a = Some (st', true, id) ->
+  find (same_key (a_user a) (a_type a) (a_key a)) (s_notices st') = Some n' -> matches f n' = true ->
+  wait_enabled st' f = true.
+Proof.
+  intros st a st' id f n' G Ht HA Hf Hm. apply wait_enabled_iff. exists n'. split; [|exact Hm].
+  apply find_some in Hf. tauto.
+Qed.
+
+(* and an addition that is not new-or-repeated (no Broadcast) never turns a blocked waiter's condition true *)
+Theorem no_missed_wakeup : forall st a st' id f,
+  good st -> a_time a = None -> add_notice st a = Some (st', false, id) ->
+  wait_enabled st f = false -> wait_enabled st' f = false.
+Proof.
+  intros st a st' id f G Ht HA Hw.
+  destruct (wait_enabled st' f) eqn:E; [|reflexivity]. exfalso.
+  apply wait_enabled_iff in E. destruct E as [m [Hm1 Hm2]].
+  assert (Hex : exists m0, In m0 (s_notices st) /\ key_of m0 = key_of m /\ n_lr m0 = n_lr m).
+  { destruct (add_server_spec _ _ _ _ _ G Ht HA) as [_ [_ [_ [[n1 [Hf1 [_ [_ [_ Hlr1]]]]] [Hother [_ Hsame]]]]]].
+    destruct (same_key (a_user a) (a_type a) (a_key a) m) eqn:K.
+    - apply same_key_iff in K. destruct (Hsame m Hm1 K) as [n2 [Hf2 ->]]. rewrite Hf1 in Hf2. inversion Hf2; subst n2.
+      destruct (Hlr1 eq_refl) as [n0 [H1 [H2 H3]]]. exists n0. split; [exact H1|]. split; [rewrite H2; symmetry; exact K | symmetry; exact H3].
+    - apply same_key_false in K. exists m. split; [apply Hother; assumption | split; reflexivity]. }
+  destruct Hex as [m0 [H1 [H2 H3]]].
+  assert (matches f m0 = true).
+  { unfold matches in *. rewrite static_match_key, H2, <- static_match_key. unfold after_ok in *. rewrite H3. exact Hm2. }
+  assert (wait_enabled st f = true) by (apply wait_enabled_iff; exists m0; auto). congruence.
+Qed.
+
+(* ------------------------------------------------------------------------------------------ explicit Time *)
+
+(* with an explicit AddNoticeOptions.Time (no production call site sets it) the property is false: the notice b below is
+   stamped before the client's cursor and is never delivered *)
+Definition refute_evs : list event :=
+  [EAdd (mkA 10 None (ty 1) (ky 0) 0 None); EPoll; EAdd (mkA 20 None (ty 1) (ky 1) 0 (Some 5)); EPoll].
+
+Theorem explicit_time_refuted :
+  exists f evs out pend k,
+    In (out, pend) (hrun f empty_state None [] evs) /\ In k pend /\ key_static_match f k = true /\
+    ~ exists n, In n out /\ key_of n = k.
+Proof.
+  exists no_filter, refute_evs, [], [(None, ty 1, ky 1)], (None, ty 1, ky 1).
+  split; [vm_compute; right; left; reflexivity|]. split; [left; reflexivity|]. split; [reflexivity|].
+  intros [n [[] _]].
+Qed.
